@@ -23,8 +23,11 @@ func init() {
 	addRule("C07", "ownoffset", 8, func(c *Ctx, r string) { ruleOwnOffset(c, r, "seq/linear", "seq/alignment") })
 	cols := [][2]string{{"seq/multi", "(*Multi).Column"}, {"seq/multi", "(*Multi).ColumnQL"}}
 	addRule("C07", "rangepanic", 2, func(c *Ctx, r string) { ruleRangePanic(c, r, cols) })
-	nws := [][2]string{{"align", "NW.alignLetters"}, {"align", "NW.alignQLetters"}}
-	addRule("C09", "lastblock", 2, func(c *Ctx, r string) { ruleLastBlock(c, r, nws) })
+	var nws [][2]string
+	for _, a := range []string{"NW", "NWAffine", "SW", "SWAffine", "Fitted", "FittedAffine"} {
+		nws = append(nws, [2]string{"align", a + ".alignLetters"}, [2]string{"align", a + ".alignQLetters"})
+	}
+	addRule("C09", "lastblock", 12, func(c *Ctx, r string) { ruleLastBlock(c, r, nws) })
 	addRule("C10", "foreignseq", 1, ruleForeignSeq)
 	addRule("C10", "queryreadonly", 6, func(c *Ctx, r string) {
 		ruleQueryReadOnly(c, r, map[string]bool{"Build": true, "buildKmerTable": true})
@@ -80,4 +83,22 @@ func init() {
 	addRule("C02", "bytecount/onerror", 20, func(c *Ctx, r string) {
 		ruleByteCountErr(c, "", r, "io/featio/bed", "io/featio/gff")
 	})
+}
+
+var seqSiblings = []siblingPair{
+	{"seq/linear", "Seq", "QSeq", map[string]string{"AppendLetters": "AppendQLetters", "AppendQLetters": "AppendLetters"}},
+	{"seq/alignment", "Seq", "QSeq", map[string]string{"Column": "ColumnQL", "ColumnQL": "Column"}},
+	{"seq/alignment", "Row", "QRow", nil},
+}
+
+var seqSiblingExcept = map[string]string{
+	"seq/linear.Seq/QSeq.String":          "QSeq builds the letters into a byte slice, Seq converts its Letters directly",
+	"seq/alignment.Row/QRow.Clone":        "Row.Clone carries three diagnostic panics on the row number that QRow.Clone does not have",
+	"seq/alignment.Row/QRow.Conformation": "Row answers with the alignment's conformation, QRow with the row's own (by design of the two types)",
+}
+
+func init() {
+	for _, id := range []string{"C05", "C06", "C07"} {
+		addRule(id, "siblingarith", 10, func(c *Ctx, r string) { ruleSiblingArith(c, r, seqSiblings, seqSiblingExcept) })
+	}
 }
